@@ -10,6 +10,7 @@ mod e2;
 mod e3;
 mod e4;
 mod e5;
+mod e5b;
 mod e6;
 mod iohook;
 mod model;
